@@ -16,7 +16,7 @@ func init() {
 		ID:          "C20",
 		Title:       "Public-symbol validation sees every symbol a query references",
 		Technique:   "static analysis: exhaustive visitor-forwarding rule over every ast.Node implementer (SSA must-pass per child field), leaf VisitSymbol rule, never-written-field rule for typing transforms, shape check of the validator; embedded helper structs flattened; first-segment rule for map elements",
-		LevelText:   "The guarantee is a shape property of the Accept methods: for every struct type implementing ast.Node, every field that can hold a child node is forwarded to with the same visitor on every path (only a nil guard on that very field or on the receiver is allowed, slices are ranged in full); every leaf symbol node reports its name through VisitSymbol unconditionally; no node field that is read is left without a writer (a typed node that silently loses a child); the validator itself overrides VisitSymbol, latches the first error and is driven through query.Accept. Complete over node kinds; does not decide which symbols a deployment marks public. Children held in embedded plain structs count as the node's children; the publicness of a dotted name is taken from its first segment only. Added in rounds 8-9: the query stored into count/isEmpty nodes is the sub-query's own object (SUBQUERYWHOLE); the validator is found by what the driver does, in struct, callback and flag-and-name shape. Added in round 10: the validator's scope push reads the current scope before overwriting it (SCOPE); no child field of an existing node is overwritten with nil (CHILDKEPT). Added in round 12: every method of the validator writes the error field only where it is still nil. Added in round 13: a node builder that answers a constant bool next to a node holding an operand has asked that operand IsConst() (OPERANDKEPT: a folded symbol never reaches the validator).",
+		LevelText:   "The guarantee is a shape property of the Accept methods: for every struct type implementing ast.Node, every field that can hold a child node is forwarded to with the same visitor on every path (only a nil guard on that very field or on the receiver is allowed, slices are ranged in full); every leaf symbol node reports its name through VisitSymbol unconditionally; no node field that is read is left without a writer (a typed node that silently loses a child); the validator itself overrides VisitSymbol, latches the first error and is driven through query.Accept. Complete over node kinds; does not decide which symbols a deployment marks public. Children held in embedded plain structs count as the node's children; the publicness of a dotted name is taken from its first segment only. Added in rounds 8-9: the query stored into count/isEmpty nodes is the sub-query's own object (SUBQUERYWHOLE); the validator is found by what the driver does, in struct, callback and flag-and-name shape. Added in round 10: the validator's scope push reads the current scope before overwriting it (SCOPE); no child field of an existing node is overwritten with nil (CHILDKEPT). Added in round 12: every method of the validator writes the error field only where it is still nil. Added in round 13: a node builder that answers a constant bool next to a node holding an operand has asked that operand IsConst() (OPERANDKEPT: a folded symbol never reaches the validator); a function answering one of its operands in place of a node holding them has found every operand it leaves out constant on that path.",
 		LevelNote:   "Trusted: go/types, x/tools SSA; tabled: AllOfSetExprNode.name / AnyOfSetExprNode.name (string copies of the symbol whose node is the left operand of the forwarded predicate; constructor shape re-checked each run).",
 		DesignRef:   "DESIGN.md C20",
 		Explanation: "Sites: every named struct type in package ast whose (pointer) method set satisfies ast.Node; per type every non-embedded field whose type implements Node (directly, via pointer, interface, or slice element).",
@@ -28,6 +28,8 @@ func init() {
 			{"C20.LEAF", "zzControlBadLeaf", true},
 			{"C20.OPERANDKEPT", "zzControlFoldBad", true},
 			{"C20.OPERANDKEPT", "zzControlFoldGood", false},
+			{"C20.OPERANDKEPT", "zzControlPickBad", true},
+			{"C20.OPERANDKEPT", "zzControlPickGood", false},
 		},
 	})
 }
